@@ -3,6 +3,7 @@ on-disk format (text headers + binary FAB files).
 
 Everything random derives from the random.Random instance passed in."""
 import os
+import random
 import struct
 import numpy as np
 
@@ -267,9 +268,46 @@ def gen_geometry(rng, ndims, stream):
     return low, dx, kind
 
 
+def awkward_axis(r2, n):
+    """(low, dx) for an axis of n cells whose extent / dx, computed in floating
+    point from the header's own numbers, falls just BELOW n (so that int()
+    truncates it to n - 1), or None"""
+    lows = [0.1, -0.3, -1.8, -2.0, 0.016, 0.7, 1e-3, 0.0]
+    dxs = [0.1, 0.3, 0.7, 0.05, 0.016, 1.0 / 3.0, 0.002, 1.1, 0.9 / n, 0.3 / n, 1.8 / n, 2.3 / n, 1.0 / n]
+    cands = [(lo, dx) for lo in lows for dx in dxs if int(((lo + n * dx) - lo) / dx) < n]
+    return r2.choice(cands) if cands else None
+
+
+def make_awkward(r2, pf):
+    done = []
+    for d in range(pf.ndims):
+        if r2.random() < 0.7:
+            c = awkward_axis(r2, pf.n0[d])
+            if c:
+                pf.geo_low[d], pf.dx0[d] = c
+                done.append(d)
+    return done
+
+
+def make_odd0(r2, pf, mesh):
+    """one more cell along one axis of the level-0 domain (an ODD cell count):
+    the level-0 boxes touching the high face grow by one cell"""
+    d = r2.randrange(pf.ndims)
+    top = pf.n0[d] - 1
+    mesh[0] = [(lo, tuple(h + 1 if (k == d and h == top) else h for k, h in enumerate(hi))) for lo, hi in mesh[0]]
+    pf.n0 = [n + 1 if k == d else n for k, n in enumerate(pf.n0)]
+    return d
+
+
 def gen_plotfile(rng, ndims=None, nlevels=None, payload=None, geo_stream=None,
-                 nfields=None, max_blocks=3, allow_repeat=False, layout=None, bf=None, mesh='blocks'):
+                 nfields=None, max_blocks=3, allow_repeat=False, layout=None, bf=None, mesh='blocks',
+                 awkward=0.0, odd0=0.0):
+    """awkward / odd0: probabilities of a geometry whose extent/dx quotient
+    rounds below the cell count, and of an odd level-0 cell count.  Both draw
+    from a generator derived from (not advancing) rng, so that the other choices
+    of a seed stay what they were."""
     pf = PF()
+    r2 = random.Random(repr(rng.getstate()[1][:8]))
     pf.ndims = ndims or rng.choice([2, 3])
     nlevels = nlevels or rng.choice([1, 1, 2, 2, 3, 4])
     pf.bf = bf or rng.choice([2, 2, 4])
@@ -282,6 +320,15 @@ def gen_plotfile(rng, ndims=None, nlevels=None, payload=None, geo_stream=None,
         pf.n0, mesh = gen_mesh_chunky(rng, pf.ndims, nlevels, pf.bf)
     else:
         pf.n0, mesh = gen_mesh(rng, pf.ndims, nlevels, pf.bf, max_blocks=max_blocks)
+    extra = []
+    if odd0 and r2.random() < odd0:
+        pf.n0 = list(pf.n0)
+        extra.append('odd0:%d' % make_odd0(r2, pf, mesh))
+    if awkward and r2.random() < awkward:
+        pf.geo_low, pf.dx0 = list(pf.geo_low), list(pf.dx0)
+        ax = make_awkward(r2, pf)
+        if ax:
+            extra.append('awkward:' + ''.join(map(str, ax)))
     payload = payload or rng.choice(['ints', 'random', 'special'])
     base = 0
     layouts = []
@@ -299,6 +346,8 @@ def gen_plotfile(rng, ndims=None, nlevels=None, payload=None, geo_stream=None,
                    payload=payload, geo=geo_stream + '/' + geo_kind, layouts=layouts,
                    nboxes=[len(l.boxes) for l in pf.levels],
                    nfiles=[len(l.files) for l in pf.levels], n0=pf.n0)
+    if extra:
+        pf.meta['geo'] += '+' + '+'.join(extra)
     return pf
 
 
